@@ -236,6 +236,7 @@ class World:
         self._cur_restore = None
         self.observe = True
         self.pending_deletes = set()
+        self.api_deleted = getattr(self, 'api_deleted', set())   # (server, instance) entries removed by the delete API
         self.left_behind = set()
         self.hooks = hooks
 
@@ -405,6 +406,7 @@ class World:
         if ev:
             self.m.process_events(ev)
         self.pending_deletes = set()
+        self.api_deleted = getattr(self, 'api_deleted', set())   # (server, instance) entries removed by the delete API
 
     # -- master life cycle ------------------------------------------------------
     def _record_pub(self, kind, fn):
@@ -537,6 +539,7 @@ class World:
             self._deliver()
         elif k == 'ServerDeleteApi':
             s = sname(op[1])
+            self.api_deleted |= {(s2, a) for (s2, a) in placement_entries(b.d) if s2 == s}
             b.raw_delete('/servers/' + s)
             b.raw_delete('/placement/' + s)
             self._event(0, 'servers', [s])
@@ -588,7 +591,7 @@ class World:
 # ---------------------------------------------------------------------------
 # oracles on observations
 # ---------------------------------------------------------------------------
-def published_diff(entries, model, known_servers, context, race=False, taint=None):
+def published_diff(entries, model, known_servers, context, race=False, taint=None, api_deleted=None):
     """C09: entries {(s,a): data} vs model {a: {server, identity, expires}} -> [(signature, what)]
 
     race: a masterapi.delete_server is in flight (nodes removed, `servers` event not yet processed).
@@ -660,9 +663,16 @@ def published_diff(entries, model, known_servers, context, race=False, taint=Non
                 elif taint is not None:
                     taint.pop(key, None)
     recorded = {a for (_s, a) in entries}
+    if api_deleted is not None:
+        # an entry that exists again, or an instance that is no longer on that server, is no longer the API's doing
+        for key in [k for k in api_deleted if k in entries or model.get(k[1], {}).get('server') != k[0]]:
+            api_deleted.discard(key)
     for a, mo in sorted(model.items()):
         if mo['server'] is not None and a not in recorded:
-            sig = ('missing-entry-during-server-delete-race' if race
+            # masterapi.delete_server removed this very entry and the master never learnt of it (the server record was
+            # re-created before the servers event was processed): same race, the window just closed differently
+            by_api = api_deleted is not None and (mo['server'], a) in api_deleted
+            sig = ('missing-entry-during-server-delete-race' if (race or by_api)
                    else 'missing-entry-for-placed-instance-%s' % context)
             hits.append((sig, '%s: model has %s on %s, no entry in the store' % (context, a, mo['server'])))
     return hits
@@ -782,10 +792,10 @@ def store_key(d):
 
 def integrity_signature(outcome, log, race):
     """signature of a failing check_placement_integrity"""
-    if outcome == 3 and log:
-        return 'integrity-assert-after-repair'
     if race:
         return 'integrity-assert-during-server-delete-race'
+    if outcome == 3 and log:
+        return 'integrity-assert-after-repair'
     return {1: 'integrity-keyerror', 2: 'integrity-assert-neither', 3: 'integrity-assert-missing-entry'}[outcome]
 
 
@@ -893,10 +903,18 @@ def run_history(case, crash_points=True, want=('c09', 'c10', 'c11'), inject=None
                         cell_hook(w, 'after-cycle')
                     ent = placement_entries(w.b.d)
                     hits['c09'] += published_diff(ent, w.model_view(), set(w.m.servers), 'after-cycle',
-                                                  race=race, taint=taint)
+                                                  race=race, taint=taint, api_deleted=w.api_deleted)
                     stats['stale_identity_count'] += stale_identity_count(ent, w.m)
                     outcome, log, exc = w.integrity_check()
                     if outcome != 0:
+                        # the final cross-check fails on entries the delete API removed behind the master's back (the
+                        # window may have closed since: the server record was created again before the event was seen)
+                        ent2 = placement_entries(w.b.d)
+                        rec2 = {a for (_s, a) in ent2}
+                        miss = {(mo['server'], a) for a, mo in w.model_view().items()
+                                if mo['server'] is not None and a not in rec2}
+                        if miss and miss <= w.api_deleted:
+                            race = True
                         hits['c10'].append((integrity_signature(outcome, log, race),
                                             'check_placement_integrity after a cycle: %s (deleted %s)'
                                             % (exc, [p for _k, p in log])))
@@ -922,8 +940,11 @@ def run_history(case, crash_points=True, want=('c09', 'c10', 'c11'), inject=None
                     # same cycle: consequence of the harness-level Renew op, outside C09-C11 (reported to the lead)
                     stats['renew_evicted_assert'] += 1
                 elif not (op[0] == 'MasterCycle' and where == 'check_placement_integrity'):
-                    hits['c09'].append(('master-exception-%s-in-%s' % (type(e).__name__, where),
-                                        'op %s: %s: %s' % (op[0], type(e).__name__, str(e)[:120])))
+                    sig = 'master-exception-%s-in-%s' % (type(e).__name__, where)
+                    if w.pending_deletes:
+                        # masterapi.delete_server has removed the server's nodes, the master has not processed the event
+                        sig += ':during-server-delete-race'
+                    hits['c09'].append((sig, 'op %s: %s: %s' % (op[0], type(e).__name__, str(e)[:120])))
                 try:
                     stats['implicit_restarts'] += 1
                     _do_restart(w, hits, stats, taint)
@@ -987,7 +1008,8 @@ def _do_restart(w, hits, stats, taint=None):
     hits['c11'] += c11_diff(w, c11)
     stats['c11_healthy_compared'] = stats.get('c11_healthy_compared', 0) + c11.get('healthy', 0)
     ent = placement_entries(w.b.d)
-    hits['c09'] += published_diff(ent, w.model_view(), set(w.m.servers), 'after-restart', race=race, taint=taint)
+    hits['c09'] += published_diff(ent, w.model_view(), set(w.m.servers), 'after-restart', race=race, taint=taint,
+                                  api_deleted=w.api_deleted)
     stats['stale_identity_count'] += stale_identity_count(ent, w.m)
 
 
